@@ -26,12 +26,21 @@ var c06OptStates = []string{"v", "missing", "nil"}
 var c06OptNames = []string{"title", "sidebar", "slot", "toolbar", "left", "over", "v", "t-s", "vslot", "s", "o1", "default-x", "header2", "x_y"}
 
 func c06NOpt(ctx core.Ctx) int {
-	return 3*81*2 + 3*2 + 3*2*2 + len(c06OptNames)*4*2 + 3*2 + 4*2 + 3*2 + 8*2
+	return 3*81*2 + 3*2 + 3*2*2 + len(c06OptNames)*4*2 + 3*2 + 4*2 + 3*2 + 8*2 + len(c06OwnAttrForms)*2
 }
+
+var c06OwnAttrForms = []string{"hash-bare", "long-bare", "long-named", "hash-named", "destr"}
 
 func c06BuildOpt(i int) c06Case {
 	o := c06Opt{Entry: []string{"vue", "file"}[i%2]}
 	i /= 2
+	if i >= 3*81+3+6+len(c06OptNames)*4+3+4+3+8 {
+		// the <slot> element's own name attribute is not a prop: content that reads an includer
+		// variable called `name` sees the includer's value, under every way of writing the slot template
+		o.Shape = "ownattrs"
+		o.Form = c06OwnAttrForms[(i-(3*81+3+6+len(c06OptNames)*4+3+4+3+8))%len(c06OwnAttrForms)]
+		return c06Case{Part: "opt", Opt: &o}
+	}
 	if i >= 3*81+3+6+len(c06OptNames)*4+3+4+3 {
 		// supplied content whose top level holds a v-if chain and a loop with its v-else:
 		// the members belong together however the content is handed over
@@ -281,6 +290,65 @@ func c06ExecOptVBind(c c06Case, o *core.Obs) {
 	}
 }
 
+func c06ExecOptOwnAttrs(c c06Case, o *core.Obs) {
+	op := c.Opt
+	body, want := `<b data-m="row">{{ name }}|{{ k }}</b>`, "Alice|K"
+	sup := ""
+	switch op.Form {
+	case "hash-bare":
+		sup = `<template #header>` + body + `</template>`
+	case "long-bare":
+		sup = `<template v-slot:header>` + body + `</template>`
+	case "long-named":
+		body, want = `<b data-m="row">{{ name }}|{{ p.k }}|{{ p.name }}</b>`, "Alice|1|"
+		sup = `<template v-slot:header="p">` + body + `</template>`
+	case "hash-named":
+		body, want = `<b data-m="row">{{ name }}|{{ p.k }}|{{ p.name }}</b>`, "Alice|1|"
+		sup = `<template #header="p">` + body + `</template>`
+	case "destr":
+		body, want = `<b data-m="row">{{ name }}|{{ k }}</b>`, "Alice|1"
+		sup = `<template #header="{ k }">` + body + `</template>`
+	}
+	page := `<template include="comp.vuego">` + sup + `</template><i data-m="after">{{ name }}</i>`
+	comp := `<div data-m="comp"><slot name="header" :k="1">FB</slot></div>`
+	files := map[string]string{"page.vuego": page, "comp.vuego": comp}
+	data := map[string]any{"name": "Alice", "k": "K"}
+	var out string
+	var err error
+	if op.Entry == "vue" {
+		out, err = renderVue(memFS(files), "page.vuego", data)
+	} else {
+		out, err = renderFile(memFS(files), "page.vuego", data)
+	}
+	o.Evals++
+	o.NT("opt-ownattrs", mustJSON(op))
+	o.Cell("part/opt/ownattrs/" + op.Form)
+	if err != nil {
+		o.Fail(c, "opt/ownattrs/render-error", "render failed: %v\npage: %s", err, page)
+		return
+	}
+	doc := oracle.Parse(out, false)
+	var got []string
+	for _, r := range doc.ByAttr("data-m", "row") {
+		got = append(got, r.InnerText())
+	}
+	if op.Form == "hash-bare" || op.Form == "long-bare" {
+		// what a template without a declared variable sees of the bound prop k is not judged; the includer's own
+		// variable `name` is: the slot binds no prop of that name
+		for i := range got {
+			if j := strings.LastIndex(got[i], "|"); j >= 0 {
+				got[i] = got[i][:j] + "|K"
+			}
+		}
+	}
+	if strings.Join(got, " ; ") != want {
+		o.Fail(c, "opt/ownattrs/slot-element-attribute-seen-as-prop/"+op.Form, "the slot binds the one prop k; its own name= attribute is not a prop (static attributes other than the name are not judged), the content reads the includer's variable `name`: want %q, got %v\npage: %s\ncomponent: %s\noutput: %s", want, got, page, comp, out)
+	}
+	if a := doc.ByAttr("data-m", "after"); len(a) != 1 || a[0].InnerText() != "Alice" {
+		o.Fail(c, "opt/ownattrs/includer-variable-changed-after/"+op.Form, "after the include the includer's name must read Alice\noutput: %s", out)
+	}
+}
+
 func c06ExecOptFbMarkup(c c06Case, o *core.Obs) {
 	op := c.Opt
 	supH, supD := op.Notes[0] == "h", op.Notes[1] == "d"
@@ -343,6 +411,10 @@ func c06ExecOpt(c c06Case, o *core.Obs) {
 	}
 	if op.Shape == "chaincontent" {
 		c06ExecOptChainContent(c, o)
+		return
+	}
+	if op.Shape == "ownattrs" {
+		c06ExecOptOwnAttrs(c, o)
 		return
 	}
 	if op.Shape == "vbind" {
